@@ -25,6 +25,72 @@ fn acquisition_order(ops: &[RawRec]) -> Vec<LockId> {
 	v
 }
 
+/// Sorting collections built by the constructors that skip the duplicate check (`new`) over
+/// OWNED inputs whose listing order differs from their address order: `&mut` members listed
+/// out of order, and a Vec of boxed collections (heap addresses unrelated to listing order).
+/// Returns (description, acquisition order) of every call, all over the same three locks.
+fn static_orders(tc: &mut Tc<'_>) -> Vec<(String, Vec<LockId>)> {
+	use crate::props::tuplefam::mk_r;
+	use happylock::collection::{BoxedLockCollection, RefLockCollection, RetryingLockCollection};
+	use happylock::ThreadKey;
+	let w = tc.w.clone();
+	let mut out = Vec::new();
+	let (r0, _) = mk_r(tc);
+	let (r1, _) = mk_r(tc);
+	let (r2, _) = mk_r(tc);
+	let mut arr = [r0, r1, r2];
+	macro_rules! locked_order {
+		($label:expr, $c:expr, $read:expr) => {{
+			let c = $c;
+			let key = tc.key.take().or_else(ThreadKey::get).expect("key");
+			w.begin_call(0, Class::Acquire, "order.lock", false);
+			if $read {
+				let g = c.read(key);
+				let ops = w.end_call(0);
+				out.push(($label.to_string(), acquisition_order(&ops)));
+				drop(g);
+			} else {
+				let g = c.lock(key);
+				let ops = w.end_call(0);
+				out.push(($label.to_string(), acquisition_order(&ops)));
+				drop(g);
+			}
+		}};
+	}
+	for read in [false, true] {
+		{
+			let [a, b, c] = &mut arr;
+			locked_order!("Boxed::new((&mut c, &mut a, &mut b))", BoxedLockCollection::new((c, a, b)), read);
+		}
+		{
+			let [a, b, c] = &mut arr;
+			locked_order!("Boxed::new([&mut b, &mut c, &mut a])", BoxedLockCollection::new([b, c, a]), read);
+		}
+		{
+			let [a, b, c] = &mut arr;
+			let inner = RetryingLockCollection::new((c, a));
+			locked_order!("Boxed::new((Retrying::new((&mut c, &mut a)), &mut b))", BoxedLockCollection::new((inner, b)), read);
+		}
+		{
+			let [a, b, c] = &mut arr;
+			let v = vec![c, b, a];
+			locked_order!("Boxed::new(vec![&mut c, &mut b, &mut a])", BoxedLockCollection::new(v), read);
+		}
+		{
+			let data = (&arr[1], &arr[2], &arr[0]);
+			locked_order!("Ref::try_new(&(&b, &c, &a))", RefLockCollection::try_new(&data).unwrap(), read);
+		}
+		{
+			locked_order!("Boxed::try_new([&c, &a, &b])", BoxedLockCollection::try_new([&arr[2], &arr[0], &arr[1]]).unwrap(), read);
+		}
+		{
+			locked_order!("Boxed::new_ref(&[a, b, c])", BoxedLockCollection::new_ref(&arr), read);
+			locked_order!("Ref::new(&[a, b, c])", RefLockCollection::new(&arr), read);
+		}
+	}
+	out
+}
+
 pub fn run(cfg: &RunCfg) -> Report {
 	let items = ((if cfg.thorough { 60000.0 } else { 2000.0 }) * cfg.scale) as u64;
 	let (mut rep, _) = par_run(cfg, items, |i, rep| {
@@ -66,6 +132,27 @@ pub fn run(cfg: &RunCfg) -> Report {
 			let mut distinct_orders = std::collections::HashSet::new();
 			let groups: Vec<u32> = w.g().group.clone();
 			let mut junk: Vec<Box<[u8]>> = Vec::new();
+			// static section: constructors over owned inputs listed out of address order
+			{
+				let mut sbefore: HashMap<(LockId, LockId), String> = HashMap::new();
+				for (d, order) in static_orders(tc) {
+					calls += 1;
+					for x in 0..order.len() {
+						for y in x + 1..order.len() {
+							let (a, b) = (order[x], order[y]);
+							pairs_checked += 1;
+							if let Some(other) = sbefore.get(&(b, a)) {
+								w.violate(
+									"C08",
+									"order_inversion",
+									format!("locks {a} and {b}: '{d}' acquired {a} before {b} (order {:?}) but '{other}' acquired {b} before {a}", order),
+								);
+							}
+							sbefore.entry((a, b)).or_insert_with(|| d.clone());
+						}
+					}
+				}
+			}
 			for p in &perms {
 				// every prefix of the permutation of length >= 2 (so sub-universes are covered)
 				for len in 2..=m {
@@ -180,7 +267,7 @@ pub fn run(cfg: &RunCfg) -> Report {
 				prop: v.prop.into(),
 				rule: v.rule.into(),
 				detail: v.detail.clone(),
-				signature: format!("{}:{}", v.prop, v.rule),
+				signature: sig_of(v),
 				case: case.clone(),
 				index: i,
 				log: vec![],
